@@ -21,7 +21,7 @@ theorem substitute_obs (h : NNet) (c : Nat) (m h' : NNet) (li : LI h) (hc : c < 
     ∃ sh h5 map dang, implShape m = some sh ∧ substituteCore h c m = some (h5, map, dang) ∧
       h'.ioNames = h.ioNames ∧ LI h' ∧ LI h5 ∧ h5.ioNames = h.ioNames ∧
       h5.kindNames = (phase1 h c m sh.des).1.kindNames ++ addedKN m (h.names.getD c "") sh.des ∧
-      (dang = [] → h' = h5) ∧
+      (dang = [] → h' = { h5 with net := densify h5.net map }) ∧
       ∀ p, SeqOnly p → (h'.kindNames.filter p).Perm (h5.kindNames.filter p) := by
   unfold substitute at he
   split at he
@@ -42,12 +42,20 @@ theorem substitute_obs (h : NNet) (c : Nat) (m h' : NNet) (li : LI h) (hc : c < 
       intro x hx
       obtain ⟨k, hk⟩ := mem_map_values map x hx
       exact o.2.2.2 k x hk
-    have r := removeDangling_obs _ h5 _ dang h' o.2.2.1 ho he
-    refine ⟨sh, h5, map, dang, hs, hcore, r.2.1.trans (o.2.1.trans p1.1), r.1, o.2.2.1, o.2.1.trans p1.1, o.1, ?_, r.2.2⟩
-    intro hd
-    subst hd
-    simp only [removeDangling, List.length_nil, Nat.zero_add] at he
-    exact (Option.some.inj he).symm
+    -- the loop that makes the copied forks dense only re-wires pins
+    have od := obs_of_pinsOnly h5 { h5 with net := densify h5.net map } (pinsOnly_densify h5.net map) rfl
+    have hod : ∀ x ∈ map.toList.filterMap id, x < ({ h5 with net := densify h5.net map } : NNet).net.nodes.size := by
+      intro x hx
+      show x < (densify h5.net map).nodes.size
+      rw [(pinsOnly_densify h5.net map).1.1]; exact ho x hx
+    have r := removeDangling_obs _ { h5 with net := densify h5.net map } _ dang h' (od.2.2 o.2.2.1) hod he
+    refine ⟨sh, h5, map, dang, hs, hcore, r.2.1.trans (od.2.1.trans (o.2.1.trans p1.1)), r.1, o.2.2.1, o.2.1.trans p1.1, o.1, ?_, ?_⟩
+    · intro hd
+      subst hd
+      simp only [removeDangling, List.length_nil, Nat.zero_add] at he
+      exact (Option.some.inj he).symm
+    · intro p hp
+      rw [← od.1]; exact r.2.2 p hp
 
 /-! ### nothing dangles when every output pin of the instance is connected -/
 def RenSome (ren : Option Nat → Option Nat) : Prop := ∀ x, ∃ y, ren (some x) = some y
